@@ -23,9 +23,10 @@
    (harness/avh/props/c08.py) on the real class.  What IS proved below, for
    all inputs, is the part of the property that is mathematics:
 
-   (a) the idealised rule (Model/QuadAlg.v: exact rationals, ANY n <= 33 nodes
-       whose Legendre matrix has an exact left inverse) returns the exact
-       integral of every polynomial of degree < n on every range, the
+   (a) the idealised rule (Model/QuadAlg.v: exact rationals, ANY n <= 33
+       pairwise distinct nodes and the exact inverse of their Legendre matrix)
+       returns the exact integral of every polynomial of degree < n on every
+       range; interpolation in the Legendre basis is unique; the
        coefficient vectors of two depths agree after padding, hence the error
        estimate is 0 and done() holds for every tolerance -- this covers the
        polynomial family of the property (degree <= 12 < 17);
@@ -38,8 +39,9 @@
        ((b - a) c_0 / sqrt 2, (b - a) ||c_old - c_new||_2) are the rational
        model's formulas in the unnormalised basis;
    (e) facts about the constants the code actually computed
-       (Props/C08consts.v, owned by the constants translator; re-exported by
-       the check when that file is present).
+       (Props/C08consts.v, owned by the constants translator; counted as C08
+       obligations by the check when that file is present -- it is not
+       Required here because coqchk needs > 40 min for its vm_compute proofs).
 
    This file contains only statements closed by [exact]. *)
 From Coq Require Import QArith Qcanon List Reals.
